@@ -187,7 +187,121 @@ func calledFrom(fn string) bool {
 
 // BanFault makes NewClient wrap the database in a BanFaultDB with Fail set
 // (read under cfgMu by the next NewClient call of this goroutine's scenario).
-type ClientOpts struct{ BanFault bool }
+type ClientOpts struct {
+	BanFault bool
+	// WrapDB, if set, wraps the database handed to the ChainService (after
+	// the BanFault wrapper).
+	WrapDB func(walletdb.DB) walletdb.DB
+}
+
+// HoldDB can hold one ban-status lookup of the ChainService itself: the
+// database transaction of the next ChainService.IsBanned call that is made
+// from inside package neutrino (not by the harness), either before the
+// transaction runs (HoldBefore) or after it has run and committed, before it
+// returns to the caller (HoldAfter: a slow disk).  Hook free: the call is
+// recognised by its call stack.
+type HoldDB struct {
+	walletdb.DB
+	mu     sync.Mutex
+	mode   int // 0 not armed
+	paused chan HoldInfo
+	resume chan struct{}
+}
+
+// Modes of HoldDB.Arm.
+const (
+	HoldAfter  = 1
+	HoldBefore = 2
+)
+
+// HoldInfo describes the lookup that is being held.
+type HoldInfo struct {
+	// Caller is the function of package neutrino that called IsBanned.
+	Caller string
+	// OnPeerHandler: the lookup runs on the peerHandler goroutine.
+	OnPeerHandler bool
+}
+
+// Arm holds the next lookup; the returned channel reports it, closing
+// release lets it go on (it goes on by itself after 30 s).
+func (d *HoldDB) Arm(mode int) (paused <-chan HoldInfo, release func()) {
+	d.mu.Lock()
+	defer d.mu.Unlock()
+	d.mode = mode
+	d.paused = make(chan HoldInfo, 1)
+	d.resume = make(chan struct{})
+	r := d.resume
+	var once sync.Once
+	return d.paused, func() { once.Do(func() { close(r) }) }
+}
+
+// Disarm cancels an Arm that has not caught a lookup.
+func (d *HoldDB) Disarm() { d.mu.Lock(); d.mode = 0; d.mu.Unlock() }
+
+// ownLookup reports whether the current goroutine is inside
+// ChainService.IsBanned called by a function of package neutrino.
+func ownLookup() (HoldInfo, bool) {
+	const pkg = "github.com/lightninglabs/neutrino."
+	pcs := make([]uintptr, 64)
+	n := runtime.Callers(3, pcs)
+	frames := runtime.CallersFrames(pcs[:n])
+	var info HoldInfo
+	found, next := false, false
+	for {
+		fr, more := frames.Next()
+		switch {
+		case next:
+			next = false
+			if !strings.HasPrefix(fr.Function, pkg) {
+				return info, false
+			}
+			info.Caller = strings.TrimPrefix(fr.Function, pkg)
+			found = true
+		case !found && strings.HasSuffix(fr.Function, "neutrino.(*ChainService).IsBanned"):
+			next = true
+		case strings.HasSuffix(fr.Function, "neutrino.(*ChainService).peerHandler"):
+			info.OnPeerHandler = true
+		}
+		if !more {
+			return info, found
+		}
+	}
+}
+
+func (d *HoldDB) hold(mode int) {
+	d.mu.Lock()
+	if d.mode != mode {
+		d.mu.Unlock()
+		return
+	}
+	info, ok := ownLookup()
+	if !ok {
+		d.mu.Unlock()
+		return
+	}
+	d.mode = 0
+	paused, resume := d.paused, d.resume
+	d.mu.Unlock()
+	paused <- info
+	select {
+	case <-resume:
+	case <-time.After(30 * time.Second):
+	}
+}
+
+func (d *HoldDB) Update(f func(tx walletdb.ReadWriteTx) error, reset func()) error {
+	d.hold(HoldBefore)
+	err := d.DB.Update(f, reset)
+	d.hold(HoldAfter)
+	return err
+}
+
+func (d *HoldDB) View(f func(tx walletdb.ReadTx) error, reset func()) error {
+	d.hold(HoldBefore)
+	err := d.DB.View(f, reset)
+	d.hold(HoldAfter)
+	return err
+}
 
 // cfgMu serialises the window in which package-level neutrino variables are
 // set and read by NewChainService.
@@ -205,6 +319,9 @@ func NewClient(dir string, nt *Net, peers []string, retry time.Duration, persist
 		fdb := &BanFaultDB{DB: db}
 		fdb.Fail.Store(true)
 		db = fdb
+	}
+	if len(opts) > 0 && opts[0].WrapDB != nil {
+		db = opts[0].WrapDB(db)
 	}
 	cfgMu.Lock()
 	old := neutrino.ConnectionRetryInterval
